@@ -21,8 +21,18 @@ class LostWake:
         self.copies = 0
         self.n_script = 0
         self.unblock_kinds = {}
+        self.held_while_down = set()
         # float-noise profile: an instant within a few ulp of stored + delay is the same instant
         self.decimal = bool(ctx.spec.get('decimal'))
+
+    def on_event(self, env, head):
+        # (used when the probe runs for C13: 'a finished part kept through a shutdown / failure leaves after
+        # restoration') remember which finished parts sat in a processor while it was down
+        if self.ctx.prop != 'C13':
+            return
+        for did, dev in self.m.devs.items():
+            if self.m.kinds[did] == 'processor' and dev._output is not None and not dev.is_operational():
+                self.held_while_down.add((did, id(dev._output)))
 
     def ready_parts(self, env):
         m = self.m
@@ -95,6 +105,15 @@ class LostWake:
                 if moved_to is not None:
                     real = self.m.devs[did]
                     rpart = real._output if slot == 'out' else real._buffer[0][1]
+                    if ctx.prop == 'C13':
+                        if (did, id(rpart)) not in self.held_while_down:
+                            ctx.count('stuck_parts_not_owned_by_C13')
+                            continue
+                        ctx.report('finished_part_stuck_after_restore',
+                                   f'at {env.now!r} {did} is operational again and still holds finished part '
+                                   f'{rpart.name}, which it kept through its down time, although downstream {moved_to} '
+                                   f'accepts it when offered', {'holder': did})
+                        return
                     ctx.report('lost_wakeup',
                                f'at {env.now!r} (clock about to advance to {t_next!r}) {did} holds ready part '
                                f'{rpart.name} and downstream {moved_to} accepts it when offered',
